@@ -17,7 +17,7 @@
    property C05's theorems (Proofs/ConvertG.v, ConvertP.v) for change_compressed_axes; they include
    gcxs_wfb of the result. *)
 From Coq Require Import ZArith List Bool.
-From Verif Require Import Py Shape COO COOP GCXS Convert NpIndex CooIndex NpJoin S_join Join Extract JoinP ExtractP JoinG TakeG.
+From Verif Require Import Py Shape COO COOP GCXS Convert ConvertG NpIndex CooIndex NpJoin S_join Join Extract JoinP ExtractP JoinG TakeG.
 Import ListNotations.
 Open Scope Z_scope.
 
@@ -95,7 +95,25 @@ Section C09.
       coo_concatenate_src V veqb vzero vadd (Some axis) (a :: r) = Raise ValueError.
   Proof. exact (coo_concat_src_bad_axis V veqb veqb_eq vzero vadd). Qed.
 
-  (* ------------------------------------------------------------ triu / tril (every k) *)
+  (* members whose shapes do not fit are rejected with ValueError, like NumPy: an off-axis extent or the
+     number of dimensions differs (concatenate), any shape differs (stack) *)
+  Theorem coo_join_shape_mismatch_rejected :
+    forall (a : coo V) (r : list (coo V)) (axis : Z),
+      Forall (fun x => c_fill x = c_fill a) r ->
+      (forall k, np_norm_axis axis (ndim_of V a) = Some k ->
+                 (exists x, In x r /\ same_off_axis k (c_shape a) (c_shape x) = false) ->
+                 coo_concatenate_src V veqb vzero vadd (Some axis) (a :: r) = Raise ValueError)
+      /\ ((exists x, In x r /\ c_shape x <> c_shape a) ->
+          coo_stack_src V veqb vzero vadd axis (a :: r) = Raise ValueError).
+  Proof.
+    intros a r axis Hfl. split.
+    - intros k Hax Hbad. exact (coo_concat_src_mismatch V veqb veqb_eq vzero vadd a r axis k Hax Hfl Hbad).
+    - intros Hbad. exact (coo_stack_src_mismatch V veqb veqb_eq vzero vadd a r axis Hfl Hbad).
+  Qed.
+
+  (* ------------------------------------------------------------ triu / tril (every k)
+     (inputs of any format are converted with asCOO first — Gen/S_join.v: site_triu_converts_input —;
+     the conversion is C05's, the theorems are about the converted COO) *)
   Theorem triu_tril_den :
     forall (x : coo V) (k : Z),
       cwf V x -> (2 <= length (c_shape x))%nat -> c_fill x = vzero ->
@@ -229,6 +247,18 @@ Section C09_gcxs.
              (np_concatenate k (darr_of_coo a) (map darr_of_coo (map fst r))).
   Proof. exact (gcxs_concat_correct V veqb veqb_eq vzero). Qed.
 
+  (* axis=None: the members are flattened and handed to the COO joiner *)
+  Theorem gcxs_concat_none_den :
+    forall (a : coo V) (ca_a : list Z) (r : list (coo V * list Z)),
+      Forall (cwf V) (a :: map fst r) ->
+      Forall (fun x => c_fill x = c_fill a) (map fst r) ->
+      Forall (fun p => axes_ok (c_shape (fst p)) (snd p)) ((a, ca_a) :: r) ->
+      exists c, gcxs_concatenate_none_src V veqb vzero vadd
+                  (map (fun p => gcxs_from_coo (fst p) (snd p)) ((a, ca_a) :: r)) = Ok c
+        /\ canonical V c
+        /\ join_result V c a (np_concatenate_none (darr_of_coo a) (map darr_of_coo (map fst r))).
+  Proof. exact (gcxs_concat_none_correct V veqb veqb_eq vzero vadd). Qed.
+
   (* stack: `arrays[i].reshape(shape with a 1 at axis).change_compressed_axes((axis,))` is modelled by its
      meaning (the member's COO with a 0 coordinate inserted, compressed along the new axis); the reshape
      kernel itself is compared by correspondence only *)
@@ -294,6 +324,7 @@ Print Assumptions coo_stack_den.
 Print Assumptions coo_stack_canonical.
 Print Assumptions coo_join_mixed_fill_rejected.
 Print Assumptions coo_concat_bad_axis_rejected.
+Print Assumptions coo_join_shape_mismatch_rejected.
 Print Assumptions triu_tril_den.
 Print Assumptions triu_tril_nonzero_fill_rejected.
 Print Assumptions diagonal_den_partial.
@@ -306,6 +337,7 @@ Print Assumptions take_list_getitem_den.
 Print Assumptions take_int_den.
 Print Assumptions take_list_den.
 Print Assumptions gcxs_concat_den.
+Print Assumptions gcxs_concat_none_den.
 Print Assumptions gcxs_stack_den.
 Print Assumptions indptr_splice_spec.
 Print Assumptions indptr_splice_wf.
